@@ -195,13 +195,13 @@ def forms():
     for ax in 'xyz':
         rot, trot = getattr(base, 'rot' + ax), getattr(base, 'trot' + ax)
         add(f'base.rot{ax}', 'theta', [('t', S, 'ang')], rot, trace=f'tr_rot{ax}')
-        add(f'base.rot{ax}', 'theta,deg', [('t', S, 'deg')], (lambda f: lambda t: f(t, 'deg'))(rot), trace=f'tr_rot{ax}_deg', post='deg')
+        add(f'base.rot{ax}', "theta,'deg'", [('t', S, 'deg')], (lambda f: lambda t: f(t, 'deg'))(rot), trace=f'tr_rot{ax}_deg', post='deg')
         add(f'base.trot{ax}', 'theta', [('t', S, 'ang')], trot, trace=f'tr_trot{ax}')
-        add(f'base.trot{ax}', 'theta,deg', [('t', S, 'deg')], (lambda f: lambda t: f(t, 'deg'))(trot), trace=f'tr_trot{ax}_deg', post='deg')
+        add(f'base.trot{ax}', "theta,'deg'", [('t', S, 'deg')], (lambda f: lambda t: f(t, 'deg'))(trot), trace=f'tr_trot{ax}_deg', post='deg')
         add(f'base.trot{ax}', 'theta,t=list', [('t', S, 'ang'), ('v', V3, 'lin')], (lambda f: lambda t, v: f(t, t=L(v)))(trot), trace=f'tr_trot{ax}_t')
         add(f'base.trot{ax}', 'theta,t=array', [('t', S, 'ang'), ('v', V3, 'lin')], (lambda f: lambda t, v: f(t, t=v))(trot))
         add(f'base.trot{ax}', 'theta,t=[1,2,3]', [('t', S, 'ang')], (lambda f: lambda t: f(t, t=[1, 2, 3]))(trot), trace=f'tr_trot{ax}_tnum')
-        add(f'base.trot{ax}', '0.3,t=list', [('v', V3, 'lin')], (lambda f: lambda v: f(0.3, t=L(v)))(trot), trace=f'tr_trot{ax}_num_t')
+        add(f'base.trot{ax}', '0.3,t=[x,y,z]', [('v', V3, 'lin')], (lambda f: lambda v: f(0.3, t=L(v)))(trot), trace=f'tr_trot{ax}_num_t')
     # ---------------- transl
     add('base.transl', 'x,y,z', [('x', S, 'lin'), ('y', S, 'lin'), ('z', S, 'lin')], base.transl, trace='tr_transl_xyz')
     add('base.transl', 'list', [('v', V3, 'lin')], lambda v: base.transl(L(v)), trace='tr_transl_list')
@@ -215,12 +215,12 @@ def forms():
     for nm, fn in (('eul2r', base.eul2r), ('eul2tr', base.eul2tr)):
         add(f'base.{nm}', 'list', [('v', V3, 'ang')], (lambda f: lambda v: f(L(v)))(fn), trace=f'tr_{nm}_list')
         add(f'base.{nm}', 'array', [('v', V3, 'ang')], fn, trace=f'tr_{nm}_arr')
-        add(f'base.{nm}', 'phi,theta,psi', [('a', S, 'ang'), ('b', S, 'ang'), ('c', S, 'ang')], fn, trace=f'tr_{nm}_3')
+        add(f'base.{nm}', 'phi,theta,psi (3 scalars)', [('a', S, 'ang'), ('b', S, 'ang'), ('c', S, 'ang')], fn, trace=f'tr_{nm}_3')
         add(f'base.{nm}', 'list,unit=deg', [('v', V3, 'deg')], (lambda f: lambda v: f(L(v), unit='deg'))(fn), trace=f'tr_{nm}_deg', post='deg')
         add(f'base.{nm}', '[a,0.0,c]', [('a', S, 'ang'), ('c', S, 'ang')], (lambda f: lambda a, c: f([a, 0.0, c]))(fn), trace=f'tr_{nm}_a0c')
         add(f'base.{nm}', '[a,0.2,0.3]', [('a', S, 'ang')], (lambda f: lambda a: f([a, 0.2, 0.3]))(fn))
         add(f'base.{nm}', '0.1,theta,psi', [('b', S, 'ang'), ('c', S, 'ang')], (lambda f: lambda b, c: f(0.1, b, c))(fn), trace=f'tr_{nm}_nbc')
-        add(f'base.{nm}', 'phi,0.2,0.3', [('a', S, 'ang')], (lambda f: lambda a: f(a, 0.2, 0.3))(fn))
+        add(f'base.{nm}', 'phi,0.2,0.3 (scalars)', [('a', S, 'ang')], (lambda f: lambda a: f(a, 0.2, 0.3))(fn))
     # ---------------- differential motion, inverse, Jacobian
     add('base.delta2tr', 'array', [('d', V6, 'gen')], base.delta2tr, trace='tr_delta2tr')
     add('base.delta2tr', 'list', [('d', V6, 'gen')], lambda d: base.delta2tr(L(d)))
@@ -280,18 +280,18 @@ def forms():
     add('SE3.inv', 'inv', [('X', M44, 'se3')], lambda X: SE3(X, check=False).inv(), trace='tr_SE3_inv')
     add('SE3.inv', 'inv of [X,Y]', [('X', M44, 'se3'), ('Y', M44, 'se3')], lambda X, Y: SE3([X, Y], check=False).inv().A[1], trace='tr_SE3_inv_seq')
     add('SE3.Ad', 'Ad', [('X', M44, 'se3')], lambda X: SE3(X, check=False).Ad(), trace='tr_SE3_Ad')
-    add('SE3.jacob', 'jacob', [('X', M44, 'se3')], lambda X: SE3(X, check=False).jacob(), trace='tr_SE3_jacob')
+    add('SE3.jacob', 'X.jacob()', [('X', M44, 'se3')], lambda X: SE3(X, check=False).jacob(), trace='tr_SE3_jacob')
     for ax in 'xyz':
         Rf, Tf, Wf = getattr(SE3, 'R' + ax), getattr(SE3, 'T' + ax), getattr(Twist3, 'R' + ax)
         add(f'SE3.R{ax}', 'theta', [('t', S, 'ang')], Rf, trace=f'tr_SE3_R{ax}')
-        add(f'SE3.R{ax}', 'theta,deg', [('t', S, 'deg')], (lambda f: lambda t: f(t, 'deg'))(Rf), trace=f'tr_SE3_R{ax}_deg', post='deg')
+        add(f'SE3.R{ax}', "theta,'deg'", [('t', S, 'deg')], (lambda f: lambda t: f(t, 'deg'))(Rf), trace=f'tr_SE3_R{ax}_deg', post='deg')
         add(f'SE3.R{ax}', 'theta,t=list', [('t', S, 'ang'), ('v', V3, 'lin')], (lambda f: lambda t, v: f(t, t=L(v)))(Rf), trace=f'tr_SE3_R{ax}_t')
         add(f'SE3.R{ax}', '[a,b]', [('a', S, 'ang'), ('b', S, 'ang')], (lambda f: lambda a, b: f([a, b]).A[1])(Rf), trace=f'tr_SE3_R{ax}_seq')
         add(f'SE3.R{ax}', '[a,0.3]', [('a', S, 'ang')], (lambda f: lambda a: f([a, 0.3]).A[0])(Rf))
         add(f'SE3.T{ax}', 'x', [('x', S, 'lin')], Tf, trace=f'tr_SE3_T{ax}')
         add(f'SE3.T{ax}', '[x,y]', [('x', S, 'lin'), ('y', S, 'lin')], (lambda f: lambda x, y: f([x, y]).A[1])(Tf), trace=f'tr_SE3_T{ax}_seq')
         add(f'Twist3.R{ax}', '[theta]', [('t', S, 'ang')], (lambda f: lambda t: f([t]))(Wf), trace=f'tr_Twist3_R{ax}')
-        add(f'Twist3.R{ax}', 'theta', [('t', S, 'ang')], Wf, trace=f'tr_Twist3_R{ax}_scalar')
+        add(f'Twist3.R{ax}', 'theta (scalar)', [('t', S, 'ang')], Wf, trace=f'tr_Twist3_R{ax}_scalar')
         add(f'Twist3.R{ax}', '[theta],deg', [('t', S, 'deg')], (lambda f: lambda t: f([t], 'deg'))(Wf), trace=f'tr_Twist3_R{ax}_deg', post='deg')
     add('SE3.Eul', 'list', [('v', V3, 'ang')], lambda v: SE3.Eul(L(v)), trace='tr_SE3_Eul')
     add('SE3.Eul', 'array', [('v', V3, 'ang')], SE3.Eul)
@@ -348,12 +348,12 @@ def forms():
     add('base.trinv2', 'T (any 2x3 block)', [('X', M33, 'hom')], base.trinv2)
     P2 = lambda X: SE2(hom(X), check=False)
     add('op.SE2*SE2', 'X*Y', [('X', M33, 'se2'), ('Y', M33, 'se2')], lambda X, Y: SE2(X, check=False) * SE2(Y, check=False), trace='tr_SE2_mul')
-    add('op.SE2.inv', 'inv', [('X', M33, 'se2')], lambda X: SE2(X, check=False).inv(), trace='tr_SE2_inv')
-    add('op.SE2/SE2', 'X/Y', [('X', M33, 'se2'), ('Y', M33, 'se2')], lambda X, Y: SE2(X, check=False) / SE2(Y, check=False), trace='tr_SE2_div')
+    add('op.SE2.inv', 'X.inv()', [('X', M33, 'se2')], lambda X: SE2(X, check=False).inv(), trace='tr_SE2_inv')
+    add('op.SE2/SE2', 'X / Y', [('X', M33, 'se2'), ('Y', M33, 'se2')], lambda X, Y: SE2(X, check=False) / SE2(Y, check=False), trace='tr_SE2_div')
     add('op.SE2*point', 'X*array2', [('X', M33, 'se2'), ('v', 'V2', 'lin')], lambda X, v: P2(X) * v, trace='tr_SE2_pt')
     add('op.SO2*SO2', 'A*B', [('A', M22, 'rot2'), ('B', M22, 'rot2')], lambda A, B: SO2(A, check=False) * SO2(B, check=False), trace='tr_SO2_mul')
-    add('op.SO2.inv', 'inv', [('A', M22, 'rot2')], lambda A: SO2(A, check=False).inv(), trace='tr_SO2_inv')
-    add('op.SO2/SO2', 'A/B', [('A', M22, 'rot2'), ('B', M22, 'rot2')], lambda A, B: SO2(A, check=False) / SO2(B, check=False), trace='tr_SO2_div')
+    add('op.SO2.inv', 'A.inv()', [('A', M22, 'rot2')], lambda A: SO2(A, check=False).inv(), trace='tr_SO2_inv')
+    add('op.SO2/SO2', 'A / B', [('A', M22, 'rot2'), ('B', M22, 'rot2')], lambda A, B: SO2(A, check=False) / SO2(B, check=False), trace='tr_SO2_div')
     add('op.SO2*point', 'A*array2', [('A', M22, 'rot2'), ('v', 'V2', 'lin')], lambda A, v: SO2(A, check=False) * v, trace='tr_SO2_pt')
     return F
 
